@@ -256,11 +256,16 @@ func (zns *ZnPMServer) readNamedPipe(pipe *pipe) {
 
 // summon all writing actions into one goroutine to ensure thread-safe on writing.
 func (zns *ZnPMServer) maintainChildState(cfg ZnPMServerConfig, ln *net.TCPListener, p *pipe) {
+	// refCount = number of procs that are running OR about to be spawned (reserved):
+	// the initial procs are going to be spawned by StartMaster() right now
+	zns.refCount = cfg.InitProcs
 	for {
 		select {
 		case aw := <-zns.addChan:
+			// NOTE: the proc has been counted (reserved) in refCount before it was spawned -
+			// DO NOT overwrite refCount with the number of registered procs here, otherwise
+			// the procs that are still on their way would be forgotten and spawned again
 			zns.childs[aw.pid] = aw
-			zns.refCount = len(zns.childs)
 		case uw := <-zns.updateChan:
 			if oldState, ok := zns.childs[uw.pid]; ok {
 				zns.childs[uw.pid] = workerState{
